@@ -48,11 +48,19 @@ type fake struct {
 	wake    chan struct{}
 	rq      [][]byte // deliverable datagrams
 	credit  int      // writes the peer will take
+	half    bool     // the peer takes the first half of a pending write and then stalls
+	inWrite int      // Write calls currently parked in the wrapped connection
+	wcalls  []wcall  // every Write call: who, how many bytes were taken, which
 	rdl     time.Time
 	wdl     time.Time
 	handed  [][]byte // datagrams handed out by reads
 	taken   [][]byte // payloads accepted by writes
 	sdCalls int
+}
+
+type wcall struct {
+	g int
+	b []byte
 }
 
 func newFake(s *vsched.Sched) *fake { return &fake{s: s, wake: make(chan struct{})} }
@@ -88,19 +96,42 @@ func (f *fake) read(b []byte) (int, error) {
 }
 
 func (f *fake) write(b []byte) (int, error) {
+	sent := 0 // bytes the peer has taken so far
+	f.mu.Lock()
+	f.inWrite++
+	f.mu.Unlock()
+	defer func() {
+		f.mu.Lock()
+		f.inWrite--
+		f.mu.Unlock()
+	}()
 	for {
 		f.mu.Lock()
 		if past(f.wdl) {
-			f.s.Record(f.s.CurID(), "RD", "", 0)
+			k := 0
+			if sent > 0 {
+				k = 2 // some bytes and a timeout
+			}
+			f.s.Record(f.s.CurID(), "RD", "", k)
+			f.wcalls = append(f.wcalls, wcall{f.s.CurID(), append([]byte{}, b[:sent]...)})
+			if sent > 0 {
+				f.taken = append(f.taken, append([]byte{}, b[:sent]...))
+			}
+			f.half = false
 			f.mu.Unlock()
-			return 0, timeoutErr{}
+			return sent, timeoutErr{}
 		}
 		if f.credit > 0 {
 			f.credit--
+			f.half = false
 			f.taken = append(f.taken, append([]byte{}, b...))
+			f.wcalls = append(f.wcalls, wcall{f.s.CurID(), append([]byte{}, b...)})
 			f.s.Record(f.s.CurID(), "RD", "", 1)
 			f.mu.Unlock()
 			return len(b), nil
+		}
+		if f.half && sent == 0 && len(b) >= 2 {
+			sent = len(b) / 2
 		}
 		ch := f.wake
 		f.mu.Unlock()
@@ -317,6 +348,25 @@ func run(h *common.History, kind, nops int, schedule []int, direct bool) {
 		f.mu.Unlock()
 		s.Settle()
 	}
+	doHalf := func() {
+		// the peer takes part of the pending write (writes only, and only while a write is parked in the wrapped connection)
+		if !isWrite(kind) {
+			return
+		}
+		o := target()
+		if o == nil || o.g.State != vsched.Blocked {
+			return
+		}
+		f.mu.Lock()
+		ok := !f.half && f.credit == 0 && !past(f.wdl) && f.inWrite > 0
+		if ok {
+			f.half = true
+			s.Record(-1, "HA", "", 0)
+			f.poke()
+		}
+		f.mu.Unlock()
+		s.Settle()
+	}
 	stepAny := func(pick int) bool {
 		rs := s.Runnable()
 		if len(rs) == 0 {
@@ -402,6 +452,9 @@ func run(h *common.History, kind, nops int, schedule []int, direct bool) {
 			case e == -2:
 				stepped = append(stepped, -2)
 				doReady()
+			case e == -7:
+				stepped = append(stepped, -7)
+				doHalf()
 			case e == -3:
 				if next < nops {
 					stepped = append(stepped, -3)
@@ -584,11 +637,16 @@ func run(h *common.History, kind, nops int, schedule []int, direct bool) {
 				}
 			}
 		case "RD":
-			if e.K == 1 {
+			switch e.K {
+			case 1:
 				emit(4)
-			} else {
+			case 2:
+				emit(16)
+			default:
 				emit(5)
 			}
+		case "HA":
+			emit(17)
 		case "SD":
 			which := e.K / 10
 			dirOK := (isWrite(kind) && which == 1) || (!isWrite(kind) && which == 0)
@@ -688,7 +746,10 @@ func gen(r *rand.Rand) (kind, nops int, sched []int) {
 		}
 		// decisions for about one operation: ~12 goroutine steps with environment events sprinkled in
 		k := 6 + r.IntN(14)
-		cancelAt, readyAt := -1, -1
+		cancelAt, readyAt, halfAt := -1, -1, -1
+		if r.IntN(3) == 0 {
+			halfAt = 5 + r.IntN(k) // the peer takes half of a parked write (writes only)
+		}
 		switch mode {
 		case 0: // cancel somewhere, maybe data too
 			cancelAt = r.IntN(k)
@@ -717,6 +778,9 @@ func gen(r *rand.Rand) (kind, nops int, sched []int) {
 			}
 			if j == readyAt {
 				sched = append(sched, -2)
+			}
+			if j == halfAt {
+				sched = append(sched, -7)
 			}
 			if r.IntN(25) == 0 {
 				sched = append(sched, -3)
